@@ -133,6 +133,34 @@ theorem C05_merge_two_phases (orc : Oracle) (locale : Str) (fuel : Nat) (path : 
         | .panic p => .panic p :=
   mergePlurals_succ orc locale fuel path n t keys s c
 
+/-- **Invariant of the first loop** (all keys, nested locales included, any fuel): when it
+    succeeds, every candidate group `(base, cands)` is sorted by form — so no form occurs twice — and
+    consists exactly of entries `(form, key, rule, value)` where `(key, value)` is one of the
+    locale's own keys and `key` is spelled `base ++ suffix rule form` (`C05_suffix_parse`): the keys
+    that differ only by the plural suffix are the ones grouped together. -/
+theorem C05_loop_groups (orc : Oracle) (locale : Str) (fuel : Nat) (path : KeyPath) (keys : List (Str × PV))
+    (acc : List (Str × PV)) (groups : List (Str × Cands)) (ws : List Warning)
+    (h : mergePlurals.loop orc locale fuel path keys [] [] [] = .ok (acc, groups, ws)) :
+    ∀ base cands, (base, cands) ∈ groups →
+      FormsSorted cands ∧
+      ∀ x ∈ cands, (x.2.1, x.2.2.2) ∈ keys ∧ plainValue x.2.2.2 = true ∧
+        x.2.1 = pluralKey base x.2.2.1 x.1 := by
+  have hinv := loop_inv orc locale fuel path (fun k v => (k, v) ∈ keys) keys [] [] [] acc groups ws
+    (fun kv hkv => hkv) (fun _ _ hm => by simp at hm) h
+  intro base cands hm
+  obtain ⟨hs, hall⟩ := hinv base cands hm
+  refine ⟨hs, fun x hx => ?_⟩
+  obtain ⟨h1, h2⟩ := hall x hx
+  have := (C05_suffix_parse _ _ _ _ _).mp h1
+  exact ⟨h2, this.1, this.2.1⟩
+
+/-- the key map after inserting the merged key: it holds the plural at `key`, every other key is
+    untouched -/
+theorem C05_key_map_gains (key : Str) (pl : PV) (keys : List (Str × PV)) :
+    AMap.get? key (AMap.insert' key pl keys) = some pl ∧
+    ∀ k, k ≠ key → AMap.get? k (AMap.insert' key pl keys) = AMap.get? k keys :=
+  ⟨get?_insert'_self key pl keys, fun k hk => get?_insert'_other key k pl hk keys⟩
+
 /-! ## 11. Turning one group of candidates into a plural key -/
 
 /-- **One group.**  `(base, cands)` with `cands` sorted by form:
